@@ -69,7 +69,16 @@ def check(ctx: Ctx) -> str:
     tn = repo.func("environment:Template.__new__")
     calls = [c for c in astq.calls(tn.node) if astq.callee(c) == "get_spontaneous_environment"]
     ctx.need(len(calls) == 1, "Template.__new__ no longer calls get_spontaneous_environment")
-    args = [ast.unparse(a) for a in calls[0].args]
+    def _arg(a: ast.AST) -> str:
+        # a local that only names the argument's value (hoisted out of the call) is looked through
+        if isinstance(a, ast.Name):
+            src_ = [x for x in ast.walk(tn.node) if isinstance(x, ast.Assign) and len(x.targets) == 1 and isinstance(x.targets[0], ast.Name) and x.targets[0].id == a.id]
+            params_ = {p_.arg for p_ in tn.node.args.args + tn.node.args.kwonlyargs}  # type: ignore[attr-defined]
+            if len(src_) == 1 and a.id not in params_:
+                return ast.unparse(src_[0].value)
+        return ast.unparse(a)
+
+    args = [_arg(a) for a in calls[0].args]
     ctx.check(args[0] == "cls.environment_class", "new:class", "environment:Template.__new__", "environment class", "the first argument must be cls.environment_class", tn.loc())
     pos = args[1:]
     ctx.check(len(pos) == len(ip), "new:arity", "environment:Template.__new__", "argument count", f"{len(pos)} positional arguments for {len(ip)} parameters of Environment.__init__", tn.loc())
